@@ -198,3 +198,8 @@ package octosql
 //@   requires validT(t1) && validT(t2)
 //@   loop 1 step stable: old(outputType) != nil && rel(t, t2) != 2 ==> outputType == old(outputType) && deref(outputType).TypeID == old(deref(outputType).TypeID)
 //@   loop 2 step stable: old(outputType) != nil && rel(t, t1) != 2 ==> outputType == old(outputType) && deref(outputType).TypeID == old(deref(outputType).TypeID)
+
+// TypeSum(t, NULL) admits NULL (the part of the upper-bound law that typing of strict functions relies on, C08).
+//@ func TypeSum
+//@   requires validT(t1) && validT(t2)
+//@   ensures nullsum: t2.TypeID == 0 ==> t2.Is(t2) == 2 && t2.Is(result) == 2
